@@ -189,7 +189,7 @@ func checkDecoded(g geom.T, err error, lim [4]int, reencode func(geom.T) ([]byte
 var _ = register("HC04_WKB", HC04_WKB)
 
 func HC04_WKB() {
-	L := sym.Pick(18, 30)
+	L := sym.Pick(18, 22)
 	sym.Bound("input bytes", L)
 	lim := setLimits(true)
 	data := symBytes("b", L)
@@ -207,7 +207,7 @@ func HC04_WKB() {
 var _ = register("HC04_EWKB", HC04_EWKB)
 
 func HC04_EWKB() {
-	L := sym.Pick(18, 30)
+	L := sym.Pick(18, 22)
 	sym.Bound("input bytes", L)
 	lim := setLimits(true)
 	data := symBytes("b", L)
